@@ -280,7 +280,8 @@ def judge(impl, name, args, prev_ths, limit=30):
     oe, ox, og = macro._c04_orig
     was = impl.recording
     impl.recording = False
-    r = {"eval": None, "expand": None, "check": None, "verdict": None, "th_eval": None, "th_exp": None, "detail": ""}
+    r = {"eval": None, "expand": None, "check": None, "verdict": None, "th_eval": None, "th_exp": None, "detail": "", "nested": []}
+    saved_rec = list(impl.rec)
     try:
         with time_limit(limit):
             try:
@@ -316,7 +317,19 @@ def judge(impl, name, args, prev_ths, limit=30):
             r["nlines"] = len(sub.items)
             rpt = impl.report.ProofReport()
             try:
-                th_exp = theory.check_proof(prf, rpt, check_level=0)
+                del impl.rec[:]
+                impl.recording = True       # nested macro steps of the expansion become inputs of their own
+                try:
+                    th_exp = theory.check_proof(prf, rpt, check_level=0)
+                finally:
+                    impl.recording = False
+                    per, nested = {}, []
+                    for e in impl.rec:             # a few per macro name, so that rare nested macros are kept
+                        if per.get(e[0], 0) < 4 and len(nested) < 60:
+                            per[e[0]] = per.get(e[0], 0) + 1
+                            nested.append(e)
+                    r["nested"] = nested
+                    del impl.rec[:]
                 r["check"] = "ok"
                 r["th_exp"] = th_exp
                 r["macros_eval"] = sorted(rpt.macros_eval)
@@ -332,6 +345,7 @@ def judge(impl, name, args, prev_ths, limit=30):
         return r
     finally:
         impl.recording = was
+        impl.rec[:] = saved_rec
     if len(rpt.gaps) != n:
         r["verdict"] = "expansion-has-gaps"
         r["detail"] = "gaps reported: %d, premises: %d" % (len(rpt.gaps), n)
@@ -930,9 +944,9 @@ class Oracle:
 
     def stat(self, name):
         return self.stats.setdefault(name, {"inputs": 0, "eval_ok": 0, "expand_ok": 0, "compared": 0, "agree": 0,
-                                            "harvest": 0, "mutation": 0, "generated": 0, "findings": {}})
+                                            "harvest": 0, "mutation": 0, "generated": 0, "nested": 0, "findings": {}})
 
-    def run_one(self, name, args, ths, origin, src):
+    def run_one(self, name, args, ths, origin, src, depth=0):
         """Judge one input (deduplicated); returns the result dict or None when seen before."""
         import time
         k = input_key(name, args, ths)
@@ -973,6 +987,7 @@ class Oracle:
             st["findings"][v] = st["findings"].get(v, 0) + 1
             size = obj_size(args) + obj_size(list(ths))
             if key not in self.found or (size < self.found[key][0] and self.nshrunk.get(key, 0) < 3):
+                r["nested"] = []
                 a2, t2, r2 = args, list(ths), r
                 known = any(f["key"] == key and f.get("status") == "known" for f in self.ctx.findings)
                 if not known:
@@ -987,6 +1002,9 @@ class Oracle:
                 size = obj_size(a2) + obj_size(t2)
                 if key not in self.found or size < self.found[key][0]:
                     self.found[key] = (size, name, a2, t2, r2, origin, self.impl.cur)
+        if depth < 2:
+            for (n2, a2, t2) in r.get("nested", []):
+                self.run_one(n2, a2, t2, dict(origin, nested_in=name), "nested", depth + 1)
         return r
 
     # -- minimisation: greedy, bounded
@@ -1444,9 +1462,17 @@ class FamGen:
             out.append(("int_eq_comparison", goal, []))
             out.append(("omega_norm_int_ineq", c1, []))
             out.append(("int_eq_macro", Eq(Eq(l, rr), Eq(minus(T)(l, rr), self.num(T, 0, 0))), []))
+            # registered with one-argument get_proof_term: never produce an expansion through the protocol
+            out.append(("int_ineq", c1, []))
+            out.append(("int_multiple_ineq_equiv", [c1, c2], []))
+            out.append(("int_ineq_mul_const", c1, [self.thm_of(greater(T)(self.num(T, 1, 3), self.num(T, 0, 0)))]))
         else:
             out.append(("real_eq_comparison", goal, []))
         return out
+
+    def thm_of(self, prop):
+        from kernel.thm import Thm
+        return Thm(prop, self.hyps())
 
     def fun_upd(self):
         from kernel.term import Eq, Lambda
@@ -1551,9 +1577,16 @@ class FamGen:
         return [("resolution", None, [th1, th2])]
 
     def basic_logic(self):
-        from kernel.term import Implies, Forall, Lambda, Not, Eq, And, Inst, Var
+        from kernel.term import Implies, Forall, Lambda, Not, Eq, And, Inst, Var, Const, plus
+        from kernel.type import TFun
         from kernel.thm import Thm
         r = self.rng
+
+        def plus_nat(a, b):
+            return plus(self.N)(a, b)
+
+        def suc(a):
+            return Const("Suc", TFun(self.N, self.N))(a)
         out = []
         # trivial
         xs = [self.form(1) for _ in range(r.randint(1, 4))]
@@ -1597,6 +1630,13 @@ class FamGen:
         eq = Thm(Eq(A, B), self.hyps())
         out.append(("rewrite_goal_with_prev", Implies(A, r.choice(self.atoms)), [eq, Thm(Implies(B, r.choice(self.atoms)), self.hyps())]))
         out.append(("rewrite_fact_with_prev", None, [eq, Thm(And(A, r.choice(self.atoms)), self.hyps())]))
+        out.append(("rewrite_goal_with_prev_sym", Implies(B, r.choice(self.atoms)), [eq, Thm(Implies(A, r.choice(self.atoms)), self.hyps())]))
+        # apply_induct
+        n0 = self.nv[0]
+        Pn = Eq(plus_nat(n0, self.num(self.N, 0, 0)), n0)
+        out.append(("apply_induct", ("nat_induct", n0, Pn),
+                    [Thm(Pn.subst_norm(Inst(x=self.num(self.N, 0, 0))) if False else Eq(plus_nat(self.num(self.N, 0, 0), self.num(self.N, 0, 0)), self.num(self.N, 0, 0)), self.hyps()),
+                     Thm(Forall(n0, Implies(Pn, Eq(plus_nat(suc(n0), self.num(self.N, 0, 0)), suc(n0)))), self.hyps())]))
         # intros
         h = Var("H0", self.B)
         out.append(("intros", None, [Thm(h, (h,)), Thm(A, (h,) + self.hyps())]))
@@ -1640,7 +1680,12 @@ def run_generators(ctx, impl, oracle, mut):
                     ctx.log("generator %s raised %s: %s" % (fam, type(e).__name__, e))
                 continue
             for (name, args, ths) in cases:
-                if name not in impl.theory.global_macros or not impl.theory.has_macro(name):
+                try:
+                    avail = name in impl.theory.global_macros and impl.theory.has_macro(name)
+                except AttributeError:          # int_ineq & co. have no `limit`: has_macro itself raises
+                    avail = False
+                    oracle.stat(name)["unusable"] = "theory.has_macro raises AttributeError (macro object has no `limit`)"
+                if not avail:
                     ctx.count("generator-macro-unavailable:" + name)
                     continue
                 org = {"kind": "generated", "family": fam, "index": i}
@@ -1709,6 +1754,18 @@ def verit_stream(ctx, impl, oracle, mut):
                             m = None
                         if m is not None:
                             oracle.run_one(name, m[1], m[2], {"kind": "verit-mutation", "rule": rule, "index": i, "mutation": m[0]}, "mutation")
+    FG = FamGen(ctx.rng("verit:imp-conj-disj"))
+    for i in range(ctx.scale(80, 800)):
+        for (nm, a, t) in FG.conj_disj():
+            nm2 = "verit_" + nm
+            org = {"kind": "generated", "family": "verit-imp-conj-disj", "index": i}
+            oracle.run_one(nm2, a, t, org, "generated")
+            try:
+                m = mut.mutate(nm2, a, t)
+            except Exception:  # noqa
+                m = None
+            if m is not None:
+                oracle.run_one(nm2, m[1], m[2], dict(org, mutation=m[0]), "mutation")
     ctx.coverage["verit_generators"] = "harness/props/c18.py: %d rules" % len(GEN)
     ctx.log("veriT stream: %d rules in %.1fs; findings so far: %d" % (len(GEN), time.time() - t0, len(oracle.found)))
 
